@@ -1057,7 +1057,9 @@ pub fn main(opts: &Opts) -> ! {
         }
     }
     // Eb/N0 lists with consecutive repeats
-    let repeat_lists: Vec<Vec<f32>> = vec![vec![20.0, 26.0, 26.0, 32.0, 38.0], vec![24.0, 24.0, 30.0], vec![30.0, 22.0, 22.0, 22.0, 34.0]];
+    // (and lists that reach very large values: seeded change C12-r9-3 caps Es/N0 at 50 dB "to keep
+    // sigma away from zero", after which the noise no longer corresponds to the requested Eb/N0)
+    let repeat_lists: Vec<Vec<f32>> = vec![vec![20.0, 26.0, 26.0, 32.0, 38.0], vec![24.0, 24.0, 30.0], vec![30.0, 22.0, 22.0, 22.0, 34.0], vec![30.0, 62.0, 74.0], vec![44.0, 57.0, 91.0]];
     for (i, l) in repeat_lists.iter().enumerate() {
         if let Some(vio) = repeated_ebn0_probe(l, dstsim::keyed(opts.seed, &[0xE0, i as u64])) {
             let body = json!({
